@@ -10,6 +10,8 @@ EXTENDS LsmProps
 
 CONSTANTS Keys, Vals,        \* model keys / values (naturals >= 1)
           WeakKeys,          \* keys used under the single-delete discipline (C13)
+          OnceKeys,          \* keys written at most once (targets of RemoveWeak / Destroy verdicts)
+          FilterRules,       \* compaction filter rule table (<<>> = no filter), LsmCore!RuleVerdict
           BigVals,           \* values that reach the key-value separation threshold ({} = standard tree)
           MaxSeq,            \* bound on the seqno counter
           MaxSealed, MaxTables, MaxSnaps, MaxHist,
@@ -39,7 +41,8 @@ ValAt(s) == (CHOOSE f \in [0..Cardinality(Vals)-1 -> Vals] :
 \* insert only when absent-by-weak-delete or never written, remove_weak only directly
 \* after an insert, never overwritten, never strongly deleted
 WriteTypes(k) ==
-    IF k \notin WeakKeys THEN {"V", "T"}
+    IF k \in OnceKeys THEN (IF \E r \in A.log : r.k = k THEN {} ELSE {"V"})
+    ELSE IF k \notin WeakKeys THEN {"V", "T"}
     ELSE LET r == NewestIn(LiveAt(A, Top), k, Top)
          IN IF r = None \/ r.t = "W" THEN {"V"} ELSE {"W"}
 
@@ -88,14 +91,25 @@ PosList(lv, ids) ==
                     IN <<p[1] - 1, p[2], CHOOSE q \in 1..Len(run) : run[q] = f[x], f[x]>>],
                  LAMBDA r : r[4] \in ids)
 
+\* the filter of a merge and the Layer A effects of its verdicts on the entries shown
+MergeFilter(ids) == FilterFn(FilterRules, BigVals, MergeInput(st, ids))
+ModelFilterEffects(ids, dest, w) ==
+    IF FilterRules = <<>> THEN {}
+    ELSE LET sh == MergeOutput(st, ids, dest, w, MergeFilter(ids)).shown
+             vd(e) == RuleVerdict(FilterRules, BigVals, e.k, e.v)
+         IN {[k |-> e.k, s |-> e.s, c |-> st.seq,
+              t |-> IF vd(e).kind = "drop" THEN "D" ELSE IF vd(e).t = "I" THEN "V" ELSE vd(e).t,
+              v |-> IF vd(e).kind = "drop" THEN NoVal ELSE vd(e).v]
+                : e \in {x \in Range(sh) : vd(x).kind # "keep"}}
+
 Merge ==
     /\ "merge" \in Ops /\ st.seq < MaxSeq
     /\ LET lv == Latest(st).lv IN
        \E ids \in SUBSET AllIds(lv), dest \in DestLevels, split \in {"none", "all"}, w \in WChoices :
          /\ ids # {}
          /\ LegalMerge(st, ids, dest)
-         /\ st' = OpMerge(st, ids, dest, split, w)
-         /\ A' = AHazard(A, MergeHazard(st, ids, w))
+         /\ st' = OpMergeF(st, ids, dest, split, w, MergeFilter(ids))
+         /\ A' = AFilter(AHazard(A, MergeHazard(st, ids, w)), ModelFilterEffects(ids, dest, w))
          /\ Log([op |-> "compact", kind |-> "merge", tables |-> PosList(lv, ids),
                  dest |-> dest, split |-> split, w |-> w])
 
@@ -113,8 +127,9 @@ Move ==
 Major ==
     /\ "major" \in Ops /\ st.seq < MaxSeq
     /\ \E split \in {"none", "all"}, w \in WChoices :
-         /\ st' = OpMerge(st, AllIds(Latest(st).lv), LastLevel, split, w)
-         /\ A' = AHazard(A, MergeHazard(st, AllIds(Latest(st).lv), w))
+         /\ st' = OpMergeF(st, AllIds(Latest(st).lv), LastLevel, split, w, MergeFilter(AllIds(Latest(st).lv)))
+         /\ A' = AFilter(AHazard(A, MergeHazard(st, AllIds(Latest(st).lv), w)),
+                         ModelFilterEffects(AllIds(Latest(st).lv), LastLevel, w))
          /\ Log([op |-> "major", split |-> split, w |-> w])
 
 \* compact(Leveled(l0 threshold, table target size)): which payload the real strategy
